@@ -4,6 +4,7 @@
 //! sizes - and compares every result with the specification's, tokens by commit identity.
 //!
 //! usage: drive_objstore seq    <cases.ndjson> <out.json>
+//!        drive_objstore ext    <cases.ndjson> <out.json>   (spec/MC_ObjStoreExt.tla)
 //!        drive_objstore ranges <out.json>
 
 use anda_object_store::{EncryptedStoreBuilder, MetaStoreBuilder};
@@ -326,9 +327,269 @@ async fn exec(run: &mut Run, call: &Value, exp: &Value, keys: &[String]) -> Vec<
                 }
             }
         }
+        "mput" => {
+            let key = c[1].as_str().unwrap();
+            let data = payload_of(c[2].as_u64().unwrap());
+            let r = async {
+                let mut up = run.store.put_multipart(&Path::from(key)).await?;
+                let (a, b) = data.split_at(data.len() / 2);
+                up.put_part(Bytes::from(a.to_vec()).into()).await?;
+                up.put_part(Bytes::from(b.to_vec()).into()).await?;
+                up.complete().await
+            }
+            .await;
+            match r {
+                Ok(pr) => {
+                    let h = run.store.head(&Path::from(key)).await.ok().and_then(|m| m.e_tag);
+                    if h != pr.e_tag {
+                        diffs.push(format!("multipart returned token {:?} but head reports {:?}", pr.e_tag, h));
+                    }
+                    if let Some(p) = run.committed(key, exp_tok, pr.e_tag) {
+                        diffs.push(p);
+                    }
+                }
+                Err(e) => diffs.push(format!("multipart: expected ok, observed {} ({e})", class(&e))),
+            }
+        }
+        "mabort" => {
+            let key = c[1].as_str().unwrap();
+            let r = async {
+                let mut up = run.store.put_multipart(&Path::from(key)).await?;
+                up.put_part(Bytes::from(payload_of(1)).into()).await?;
+                up.abort().await
+            }
+            .await;
+            if let Err(e) = r {
+                diffs.push(format!("multipart abort: expected ok, observed {} ({e})", class(&e)));
+            }
+        }
         other => panic!("op {other}"),
     }
     diffs
+}
+
+fn prefix_of(v: &Value) -> Option<Path> {
+    let parts: Vec<&str> = v.as_array().unwrap().iter().map(|x| x.as_str().unwrap()).collect();
+    if parts.is_empty() { None } else { Some(Path::from(parts.join("/"))) }
+}
+
+fn entries_of(run: &Run, metas: &[ObjectMeta]) -> Vec<(String, u64, i64)> {
+    let mut got: Vec<(String, u64, i64)> =
+        metas.iter().map(|m| (m.location.to_string(), m.size, run.number_of(&m.e_tag))).collect();
+    got.sort();
+    got
+}
+
+fn expected_entries(items: &Value) -> Vec<(String, u64, i64)> {
+    let mut want: Vec<(String, u64, i64)> = items
+        .as_array()
+        .unwrap()
+        .iter()
+        .map(|x| (x[0].as_str().unwrap().to_string(), payload_of(x[1].as_u64().unwrap()).len() as u64, x[2].as_i64().unwrap()))
+        .collect();
+    want.sort();
+    want
+}
+
+/// One observation of ObjStoreExt.tla (conditional get / head, list variants); returns the differences.
+async fn exec_obs(run: &mut Run, call: &Value, exp: &Value, keys: &[String]) -> Vec<String> {
+    if run.kind.cold() {
+        run.store = run.kind.build(run.inner.clone());
+    }
+    let c = call.as_array().unwrap();
+    let op = c[0].as_str().unwrap();
+    let mut diffs = Vec::new();
+    match op {
+        "cond" => {
+            let head = c[1].as_str().unwrap() == "head";
+            let key = c[2].as_str().unwrap();
+            let cond = &c[3];
+            let tags = |v: &Value| -> Option<String> {
+                let refs: Vec<i64> = v.as_array().unwrap().iter().map(|x| x.as_i64().unwrap()).collect();
+                if refs.is_empty() {
+                    None
+                } else if refs == [-5] {
+                    Some("*".into())
+                } else {
+                    Some(
+                        refs.iter()
+                            .map(|r| run.tok_string(*r, key, keys).unwrap_or_else(|| format!("no-such-token{r}")))
+                            .collect::<Vec<_>>()
+                            .join(", "),
+                    )
+                }
+            };
+            // dates are relative to the timestamp the store itself reports for the current commit
+            let lm = match run.store.head(&Path::from(key)).await {
+                Ok(m) => m.last_modified,
+                Err(_) => chrono::Utc::now(),
+            };
+            let date = |v: &Value| match v.as_str().unwrap() {
+                "before" => Some(lm - chrono::Duration::seconds(1)),
+                "at" => Some(lm),
+                "after" => Some(lm + chrono::Duration::seconds(1)),
+                _ => None,
+            };
+            let opts = GetOptions {
+                if_match: tags(&cond["im"]),
+                if_none_match: tags(&cond["inm"]),
+                if_unmodified_since: date(&cond["ius"]),
+                if_modified_since: date(&cond["ims"]),
+                head,
+                ..Default::default()
+            };
+            let exp_r = exp["r"].as_str().unwrap();
+            let what = format!("{}({key}, {cond})", if head { "head" } else { "get" });
+            match run.store.get_opts(&Path::from(key), opts).await {
+                Ok(res) => {
+                    if exp_r != "ok" {
+                        diffs.push(format!("{what}: expected {exp_r}, observed ok"));
+                    } else {
+                        let n = run.number_of(&res.meta.e_tag);
+                        if n != exp["tok"].as_i64().unwrap() {
+                            diffs.push(format!("{what}: token of commit {} expected, observed commit {n}", exp["tok"]));
+                        }
+                        if res.meta.last_modified != lm {
+                            diffs.push(format!("{what}: timestamp {} differs from head's {lm}", res.meta.last_modified));
+                        }
+                        let want = payload_of(exp["val"].as_u64().unwrap());
+                        if res.meta.size != want.len() as u64 {
+                            diffs.push(format!("{what}: size {} expected, observed {}", want.len(), res.meta.size));
+                        }
+                        if !head {
+                            match res.bytes().await {
+                                Ok(b) if b[..] == want[..] => {}
+                                Ok(b) => diffs.push(format!("{what}: value {} expected, observed {} bytes", exp["val"], b.len())),
+                                Err(e) => diffs.push(format!("{what}: body failed: {e}")),
+                            }
+                        }
+                    }
+                }
+                Err(e) => {
+                    if class(&e) != exp_r {
+                        diffs.push(format!("{what}: expected {exp_r}, observed {} ({e})", class(&e)));
+                    }
+                }
+            }
+        }
+        "list" | "list_offset" => {
+            let prefix = prefix_of(&c[1]);
+            let r: Result<Vec<ObjectMeta>> = if op == "list" {
+                run.store.list(prefix.as_ref()).try_collect().await
+            } else {
+                run.store.list_with_offset(prefix.as_ref(), &Path::from(c[2].as_str().unwrap())).try_collect().await
+            };
+            match r {
+                Ok(metas) => {
+                    let (got, want) = (entries_of(run, &metas), expected_entries(&exp["items"]));
+                    if got != want {
+                        diffs.push(format!("{call}: expected {want:?} observed {got:?} (key, size, commit)"));
+                    }
+                    // one view per commit: the listing reports what head reports
+                    for m in &metas {
+                        match run.store.head(&m.location).await {
+                            Ok(h) => {
+                                if h.last_modified != m.last_modified || h.e_tag != m.e_tag || h.size != m.size {
+                                    diffs.push(format!(
+                                        "{call}: entry {} lists ({}, {:?}, {}) but head reports ({}, {:?}, {})",
+                                        m.location, m.size, m.e_tag, m.last_modified, h.size, h.e_tag, h.last_modified
+                                    ));
+                                }
+                            }
+                            Err(e) => diffs.push(format!("{call}: listed key {} cannot be read: {e}", m.location)),
+                        }
+                    }
+                }
+                Err(e) => diffs.push(format!("{call}: failed: {e}")),
+            }
+        }
+        "list_delim" => {
+            let prefix = prefix_of(&c[1]);
+            match run.store.list_with_delimiter(prefix.as_ref()).await {
+                Ok(lr) => {
+                    let (got, want) = (entries_of(run, &lr.objects), expected_entries(&exp["items"]));
+                    if got != want {
+                        diffs.push(format!("{call}: objects expected {want:?} observed {got:?}"));
+                    }
+                    let mut gp: Vec<String> = lr.common_prefixes.iter().map(|p| p.to_string()).collect();
+                    gp.sort();
+                    let mut wp: Vec<String> = exp["prefixes"]
+                        .as_array()
+                        .unwrap()
+                        .iter()
+                        .map(|p| p.as_array().unwrap().iter().map(|x| x.as_str().unwrap()).collect::<Vec<_>>().join("/"))
+                        .collect();
+                    wp.sort();
+                    if gp != wp {
+                        diffs.push(format!("{call}: common prefixes expected {wp:?} observed {gp:?}"));
+                    }
+                }
+                Err(e) => diffs.push(format!("{call}: failed: {e}")),
+            }
+        }
+        other => panic!("observation {other}"),
+    }
+    diffs
+}
+
+/// Family "ext": a state-building prefix, then the whole battery of observations in that state.
+async fn run_ext(path: &str, kinds: &[Kind]) -> Value {
+    let f = BufReader::new(std::fs::File::open(path).unwrap());
+    let keys: Vec<String> = ["a", "a/b", "a/b/c", "ab"].iter().map(|s| s.to_string()).collect();
+    let (mut cases, mut calls, mut nontrivial, mut n_dis) = (0u64, 0u64, 0u64, 0u64);
+    let mut disagreements: Vec<Value> = Vec::new();
+    let mut per_store: BTreeMap<String, u64> = BTreeMap::new();
+    let mut per_obs: BTreeMap<String, u64> = BTreeMap::new();
+    let mut samples = Vec::new();
+    for line in f.lines() {
+        let line = line.unwrap();
+        if line.is_empty() {
+            continue;
+        }
+        let case: Value = serde_json::from_str(&line).unwrap();
+        cases += 1;
+        let prefix = case["prefix"].as_array().unwrap();
+        let obs = case["obs"].as_array().unwrap();
+        if case["listing"].as_array().unwrap().len() >= 2 {
+            nontrivial += 1;
+        }
+        if samples.len() < 2 && cases % 97 == 11 {
+            samples.push(json!({"prefix": case["prefix"], "obs_first": obs.iter().take(4).collect::<Vec<_>>(), "n_obs": obs.len()}));
+        }
+        for kind in kinds {
+            let mut run = Run::new(kind.clone());
+            let mut diffs = Vec::new();
+            for (i, step) in prefix.iter().enumerate() {
+                calls += 1;
+                for d in exec(&mut run, &step["call"], &step["res"], &keys).await {
+                    diffs.push(format!("call {}: {d}", i + 1));
+                }
+            }
+            let mut failed: Vec<Value> = Vec::new();
+            for o in obs {
+                calls += 1;
+                *per_obs.entry(o["call"][0].as_str().unwrap().to_string()).or_default() += 1;
+                let d = exec_obs(&mut run, &o["call"], &o["res"], &keys).await;
+                if !d.is_empty() && failed.len() < 12 {
+                    failed.push(o.clone());
+                }
+                diffs.extend(d);
+            }
+            if !diffs.is_empty() {
+                n_dis += 1;
+                *per_store.entry(kind.name()).or_default() += 1;
+                if disagreements.len() < 100 {
+                    diffs.truncate(12);
+                    // the replayable case: the prefix and the observations that disagreed
+                    disagreements.push(json!({"store": kind.name(), "diffs": diffs,
+                        "case": {"prefix": case["prefix"], "obs": failed, "listing": case["listing"]}}));
+                }
+            }
+        }
+    }
+    json!({"cases": cases, "calls": calls, "nontrivial": nontrivial, "n_disagree": n_dis, "per_store": per_store,
+           "per_observation": per_obs, "disagreements": disagreements, "samples": samples,
+           "stores": kinds.iter().map(|k| k.name()).collect::<Vec<_>>()})
 }
 
 async fn check_listing(run: &mut Run, exp: &Value) -> Vec<String> {
@@ -586,6 +847,17 @@ async fn exec_conc(store: Arc<dyn ObjectStore>, call: Value, toks: BTreeMap<Stri
             }
         }
         "delete" => out(store.delete(&Path::from(c[1].as_str().unwrap())).await.map(|_| 0)),
+        "mput" => {
+            let data = payload_of(c[2].as_u64().unwrap());
+            out(async {
+                let mut up = store.put_multipart(&Path::from(c[1].as_str().unwrap())).await?;
+                let (a, b) = data.split_at(data.len() / 2);
+                up.put_part(Bytes::from(a.to_vec()).into()).await?;
+                up.put_part(Bytes::from(b.to_vec()).into()).await?;
+                up.complete().await.map(|_| 0)
+            }
+            .await)
+        }
         "copy" => out(store
             .copy_opts(&Path::from(c[1].as_str().unwrap()), &Path::from(c[2].as_str().unwrap()), CopyOptions { mode: CopyMode::Overwrite, ..Default::default() })
             .await
@@ -735,6 +1007,23 @@ async fn main() {
             }
             let out = run_seq(&args[2], &kinds).await;
             println!("drive_objstore seq: cases={} calls={} disagreements={} {}", out["cases"], out["calls"], out["n_disagree"], out["per_store"]);
+            std::fs::write(&args[3], out.to_string()).unwrap();
+        }
+        "ext" => {
+            let thorough = std::env::var("VERIF_TIER").map(|t| t == "thorough").unwrap_or(false);
+            let mut kinds = vec![
+                Kind::Mem,
+                Kind::Meta { cold: false },
+                Kind::Meta { cold: true },
+                Kind::Enc { cold: false, chunk: 7 },
+                Kind::Enc { cold: true, chunk: 16 },
+            ];
+            if thorough {
+                kinds.push(Kind::Enc { cold: false, chunk: 1 });
+                kinds.push(Kind::Enc { cold: false, chunk: 65536 });
+            }
+            let out = run_ext(&args[2], &kinds).await;
+            println!("drive_objstore ext: cases={} calls={} disagreements={} {}", out["cases"], out["calls"], out["n_disagree"], out["per_store"]);
             std::fs::write(&args[3], out.to_string()).unwrap();
         }
         "conc" => {
